@@ -1,14 +1,14 @@
 SPECIFICATION Spec
 CONSTANTS
-  INSTR = {"i1", "i2"}
+  INSTR = {"i1"}
   PRICE = {1, 2}
   AMOUNT = {0, 1, 2}
   RULES = {"Spot", "Futures"}
-  MCM = 3
+  MCM = 5
   EVOLUTIONS <- FewEvolutions
-  MaxEvents = 2
-  MaxDeliver = 4
-  MaxReinit = 0
+  MaxEvents = 4
+  MaxDeliver = 8
+  MaxReinit = 1
 INVARIANTS TypeOK Chain BookValid BookNeverWrong BookIsMap Told CleanNeverErrors
 PROPERTIES BreakSurfaces Isolation AdvanceOnlyOnAdmission
 VIEW View
